@@ -37,12 +37,16 @@ Record dobs := mkO {
 Record scase := mkS { s_id : N; s_svc : svc; s_exact : bool; s_h : list (dgram * dobs) }.
 Record rcase := mkR { r_id : N; r_ts : list Z; r_obs : list bool }.
 Record ccase := mkC { k_id : N; k_interval : Z; k_burst : Z }.
-Inductive case := CS (c : scase) | CR (c : rcase) | CC (c : ccase).
+(* part "conc": per fresh source address, x_rows = (datagrams sent - the first ones
+   handled concurrently -, responses received); all datagrams carry x_d's payload *)
+Record xcase := mkX { x_id : N; x_svc : svc; x_d : dgram; x_rows : list (Z * Z) }.
+Inductive case := CS (c : scase) | CR (c : rcase) | CC (c : ccase) | CX (c : xcase).
 
 Definition SIG_OVER_BURST := 1%N.     (* one source IP received more than 4 responses inside one interval *)
 Definition SIG_INTERFERENCE := 2%N.   (* what a source receives depends on other sources' datagrams *)
 Definition SIG_KEY := 3%N.            (* two different source IPs share a limiter key (or one IP has two) *)
 Definition SIG_RATE_OVER := 4%N.      (* the rate library granted more than burst inside one interval (less 2 ns) *)
+Definition SIG_CONC_OVER := 6%N.      (* a source whose first datagrams were handled concurrently got more than 4 responses *)
 Definition SIG_CONSTS := 5%N.         (* NewLimiter: burst above 4 or refill faster than one per 10 min *)
 
 (* ---- CS: property evaluated on the observations alone ---- *)
@@ -152,19 +156,40 @@ Definition rcase_tag (c : rcase) : N :=
 Definition ccase_mismatch (c : ccase) : bool := negb ((k_interval c =? I_NS) && (k_burst c =? BURST)).
 Definition ccase_sig (c : ccase) : N := if (4 <? k_burst c) || (k_interval c <? 600000000000) then SIG_CONSTS else 0%N.
 
+(* ---- CX ---- *)
+(* every Allow of the script is followed by a response: then, whatever the interleaving,
+   an atomic limiter lets exactly min(burst, number of Allow calls) responses through *)
+Fixpoint uniform (s : list step) : bool :=
+  match s with
+  | [] => true
+  | SAsk :: r => match r with SReply _ :: r' => uniform r' | _ => false end
+  | _ => false
+  end.
+Definition asks_of (s : list step) : Z := zlen (filter (fun x => match x with SAsk => true | _ => false end) s).
+
+Definition xcase_sig (c : xcase) : N :=
+  if existsb (fun row => BURST <? snd row) (x_rows c) then SIG_CONC_OVER else 0%N.
+Definition xcase_mismatch (c : xcase) : bool :=
+  let sc := script (x_svc c) [] (x_d c) in
+  uniform sc && existsb (fun row => negb (snd row =? Z.min BURST (fst row * asks_of sc))) (x_rows c).
+Definition x_full (c : xcase) : bool := existsb (fun row => snd row =? BURST) (x_rows c).
+Definition x_part (c : xcase) : bool := existsb (fun row => (0 <? snd row) && (snd row <? BURST)) (x_rows c).
+Definition xcase_tag (c : xcase) : N := ((if x_full c then 1 else 0) + (if x_part c then 2 else 0))%N.
+
 (* ---- exported ---- *)
-Definition case_id (c : case) : N := match c with CS s => s_id s | CR r => r_id r | CC k => k_id k end.
+Definition case_id (c : case) : N := match c with CS s => s_id s | CR r => r_id r | CC k => k_id k | CX x => x_id x end.
 Definition case_sig (c : case) : N :=
   match c with
   | CS s => scase_sig s
   | CR r => if rate_over r then SIG_RATE_OVER else 0%N
   | CC k => ccase_sig k
+  | CX x => xcase_sig x
   end.
 Definition case_mismatch (c : case) : bool :=
-  match c with CS s => scase_mismatch s | CR r => rcase_mismatch r | CC k => ccase_mismatch k end.
+  match c with CS s => scase_mismatch s | CR r => rcase_mismatch r | CC k => ccase_mismatch k | CX x => xcase_mismatch x end.
 
 Definition mismatches (cs : list case) : list N := map case_id (filter case_mismatch cs).
 Definition violations (cs : list case) : list (N * N) :=
   flat_map (fun c => let s := case_sig c in if (s =? 0)%N then [] else [(case_id c, s)]) cs.
 Definition tags (cs : list case) : list (N * N) :=
-  map (fun c => (case_id c, match c with CS s => scase_tag s | CR r => rcase_tag r | CC _ => 1%N end)) cs.
+  map (fun c => (case_id c, match c with CS s => scase_tag s | CR r => rcase_tag r | CC _ => 1%N | CX x => xcase_tag x end)) cs.
